@@ -19,6 +19,7 @@ import (
 	"google.golang.org/grpc/codes"
 	grpcstatus "google.golang.org/grpc/status"
 	"google.golang.org/protobuf/proto"
+	"google.golang.org/protobuf/types/known/anypb"
 	"google.golang.org/protobuf/types/known/emptypb"
 )
 
@@ -83,6 +84,8 @@ type Step struct {
 	Q     int               `json:"q,omitempty"` // index into the list of known size class queues
 	Code  string            `json:"code,omitempty"`
 	Pre   time.Duration     `json:"pre,omitempty"` // clock advance before the step
+	NP    bool              `json:"np,omitempty"`  // Execute without an execution_policy
+	NM    bool              `json:"nm,omitempty"`  // Execute without a RequestMetadata header
 }
 
 // Divergence is one difference between implementation and model/oracle.
@@ -180,6 +183,8 @@ type Case struct {
 	stop     bool
 	// Scenario selects a scripted prelude (0 = none).
 	Scenario int
+	// submitted: the ExecuteResponse each worker handed in, by its token.
+	submitted map[string]*remoteexecution.ExecuteResponse
 }
 
 type scqRef struct {
@@ -382,7 +387,7 @@ func GenWorld(rng *rand.Rand, p Profile) *World {
 // NewCase instantiates a world: real scheduler + model.
 func NewCase(w *World, p Profile, rng *rand.Rand) *Case {
 	env := NewEnv(w.Cfg, 1_700_000_000)
-	c := &Case{W: w, P: p, Env: env, rng: rng, syncs: map[int]*syncPair{}, realSync: map[string]*syncPair{}, lastResp: map[int]*syncObs{}}
+	c := &Case{W: w, P: p, Env: env, rng: rng, syncs: map[int]*syncPair{}, realSync: map[string]*syncPair{}, lastResp: map[int]*syncObs{}, submitted: map[string]*remoteexecution.ExecuteResponse{}}
 	c.res = &CaseResult{World: w, Situations: map[string]int{}}
 	c.M = NewModel(w.Cfg, env.Clock.Now())
 	c.M.Chooser = c
@@ -693,6 +698,10 @@ func (c *Case) compareStream(sp *streamPair) {
 		}
 		if mm.Done {
 			doneAt = i
+			if why := c.unfaithful(mm); why != "" {
+				c.diverge("final-response-altered", []string{"C02"}, "stream %d: the final message %+v does not carry the response as it was supplied: %s", sp.m.ID, brief(mm), why)
+				return
+			}
 		}
 	}
 	// Align with expectation, skipping optional messages that are absent.
@@ -726,8 +735,8 @@ func (c *Case) compareStream(sp *streamPair) {
 		case ri == 0 && sp.m.DedupAttach && (got.Stage != e.Stage || got.Name != e.Name):
 			c.diverge("duplicate-request-not-attached-to-in-flight-task", []string{"C03"}, "stream %d: request for the digest of a live cacheable task should attach to it (expected first message %+v), got %+v", sp.m.ID, e, brief(got))
 		case got.Done && !e.Done:
-			owners := []string{"C02"}
-			c.diverge("unexpected-final-message", owners, "stream %d: got final message %+v where %+v was expected", sp.m.ID, brief(got), e)
+			rule, owners := c.classifyUnexpectedFinal(sp, got)
+			c.diverge(rule, owners, "stream %d: got final message %+v where %+v was expected", sp.m.ID, brief(got), e)
 		case got.Done && e.Done:
 			owners := []string{"C02"}
 			if c.isDedupOp(sp.m) {
@@ -749,8 +758,22 @@ func (c *Case) compareStream(sp *streamPair) {
 	}
 	if ri < len(msgs) {
 		got := msgs[ri]
+		if sp.m.WaitName != "" && sp.m.Op == nil && sp.m.State == "returned" && sp.m.RetCode == "NotFound" {
+			// A WaitExecution for an operation that no longer exists
+			// (the no-waiters clean-up removed it, possibly during this
+			// very call's authorization) was attached to something and
+			// sent messages. An operation that has been taken off its
+			// task but can still collect waiters breaks the per-task
+			// accounting of operations that "cancelled only when its last
+			// operation is abandoned" rests on (when that waiter leaves,
+			// the second clean-up cancels the task under the clients
+			// still attached), so C03 owns the rule together with C02.
+			c.diverge("wait-execution-attached-to-removed-operation", []string{"C02", "C03"}, "stream %d: WaitExecution(%s) should have returned NotFound, but was sent %+v", sp.m.ID, sp.m.WaitName, brief(got))
+			return
+		}
 		if got.Done {
-			c.diverge("unexpected-final-message", []string{"C02"}, "stream %d: unexpected final message %+v", sp.m.ID, brief(got))
+			rule, owners := c.classifyUnexpectedFinal(sp, got)
+			c.diverge(rule, owners, "stream %d: unexpected final message %+v", sp.m.ID, brief(got))
 		} else {
 			c.diverge("unexpected-message", []string{"C02"}, "stream %d: unexpected message %+v (all: %v)", sp.m.ID, brief(got), briefs(msgs))
 		}
@@ -777,6 +800,58 @@ func (c *Case) compareStream(sp *streamPair) {
 	} else if sp.call.Done() {
 		c.diverge("stream-returned-unexpectedly", []string{"C02"}, "stream %d returned %v, but should still be waiting (state %s)", sp.m.ID, sp.call.Err, sp.m.State)
 	}
+}
+
+// classifyUnexpectedFinal names the rule broken by a final message the model
+// did not expect. One shape belongs to C03 as well as C02: the scheduler's
+// own cancellation (status CANCELED that neither a worker nor an operator
+// supplied: no worker token, none of the status details every KillOperations
+// step of the harness attaches, no kill issued in this step) delivered to a
+// stream that is attached to a task the model says is still live. The only
+// cause the scheduler may state with that code is "no client waits any
+// more", and this client does. Wording plays no part.
+func (c *Case) classifyUnexpectedFinal(sp *streamPair, got Msg) (string, []string) {
+	killStep := false
+	if n := len(c.steps); n > 0 {
+		switch c.steps[n-1].K {
+		case "kill", "gkill", "gkillopen", "killq":
+			killStep = true
+		}
+	}
+	attachedToLiveTask := sp.m.Op != nil && !sp.m.Op.removed && !sp.m.Op.Task.Completed && sp.m.State != "returned" && sp.m.State != "auth"
+	if got.Code == "Canceled" && got.Token == "" && len(got.RespPB.GetStatus().GetDetails()) == 0 && !killStep && attachedToLiveTask {
+		return "task-cancelled-while-client-still-attached", []string{"C03", "C02"}
+	}
+	return "unexpected-final-message", []string{"C02"}
+}
+
+// unfaithful judges the body of a final message without the model: a
+// response that carries a worker's token must be exactly the ExecuteResponse
+// that worker handed in (result, status with details, server logs, message);
+// an operator's kill must carry exactly the status the operator supplied and
+// nothing else.
+func (c *Case) unfaithful(m Msg) string {
+	if m.RespPB == nil {
+		return ""
+	}
+	if m.Token != "" {
+		want, ok := c.submitted[m.Token]
+		if !ok {
+			return "no worker submitted a response with token " + m.Token
+		}
+		if !proto.Equal(m.RespPB, want) {
+			return fmt.Sprintf("worker submitted %v, the client received %v", want, m.RespPB)
+		}
+		return ""
+	}
+	if strings.Contains(m.Text, "killed by operator") {
+		want := &remoteexecution.ExecuteResponse{Status: statusFor(m.Code, m.Text)}
+		want.Status.Details = KillDetails()
+		if !proto.Equal(m.RespPB, want) {
+			return fmt.Sprintf("the operator supplied status %v, the client received %v", want.Status, m.RespPB)
+		}
+	}
+	return ""
 }
 
 func (c *Case) isDedupOp(s *MStream) bool {
@@ -1085,6 +1160,14 @@ func statusFor(code, text string) *status.Status {
 	return &status.Status{Code: int32(cc), Message: text}
 }
 
+// killStatus is the status an operator passes to KillOperations: code,
+// message and a detail that must reach the clients unchanged.
+func killStatus(code, text string) *status.Status {
+	st := statusFor(code, text)
+	st.Details = KillDetails()
+	return st
+}
+
 var tokenSeq int
 
 func (c *Case) doStep(s Step) {
@@ -1097,6 +1180,14 @@ func (c *Case) doStep(s Step) {
 			ActionDigest:    &remoteexecution.Digest{Hash: a.Hash, SizeBytes: a.Size},
 			ExecutionPolicy: &remoteexecution.ExecutionPolicy{Priority: s.Prio},
 		}
+		if s.NP && s.Prio == 0 {
+			// REv2 clients may leave the policy out: priority 0.
+			req.ExecutionPolicy = nil
+			c.sit("request:without-execution-policy")
+		}
+		if s.NM && s.Path == "" {
+			c.sit("request:without-request-metadata")
+		}
 		var sendGate *Gate
 		var sendErr error
 		if s.Gate {
@@ -1105,7 +1196,7 @@ func (c *Case) doStep(s Step) {
 		if s.Code != "" {
 			sendErr = grpcstatus.Error(codeByName(s.Code), "client went away")
 		}
-		call := c.Env.Execute(req, s.Path, a.Script, nil, sendGate, sendErr)
+		call := c.Env.ExecuteOpt(req, s.Path, a.Script, nil, sendGate, sendErr, s.NM && s.Path == "")
 		sp := &streamPair{call: call, m: &MStream{ID: len(c.streams)}, gate: sendGate}
 		sp.m.SendGated = s.Gate
 		sp.m.SendErr = s.Code
@@ -1115,6 +1206,9 @@ func (c *Case) doStep(s Step) {
 			return
 		}
 		c.M.ExecuteBegin(sp.m, &ExecReq{Instance: a.Instance, Hash: a.Hash, SizeBytes: a.Size, Props: a.Props, DoNotCache: a.DoNotCache, InCAS: a.InCAS, Path: s.Path, Priority: s.Prio, Script: a.Script})
+		if s.NP && s.Prio == 0 && sp.m.DedupAttach {
+			c.sit("request:without-execution-policy-attached-to-in-flight-task")
+		}
 	case "wait":
 		var gate *Gate
 		if s.Gate {
@@ -1183,17 +1277,23 @@ func (c *Case) doStep(s Step) {
 			mresp := &MResp{Token: token, Code: "OK"}
 			switch s.Out {
 			case "ok":
-				resp.Result = &remoteexecution.ActionResult{ExitCode: 0}
+				resp.Result = WorkerResult(token, 0)
 			case "exit1":
-				resp.Result = &remoteexecution.ActionResult{ExitCode: 1}
+				resp.Result = WorkerResult(token, 1)
 				mresp.Exit = 1
 			case "deadline":
 				resp.Status = statusFor("DeadlineExceeded", "Failed to run command: timeout")
+				// Workers report what was produced until the time-out.
+				resp.Result = WorkerResult(token, 0)
 				mresp.Code, mresp.Text = "DeadlineExceeded", "Failed to run command: timeout"
 			default:
 				resp.Status = statusFor("Internal", "Failed to run command: boom")
+				resp.Status.Details = []*anypb.Any{InvocationAny("detail-of-" + token)}
 				mresp.Code, mresp.Text = "Internal", "Failed to run command: boom"
 			}
+			DecorateWorkerResponse(resp, token)
+			mresp.Dur = resp.Result.GetExecutionMetadata().GetVirtualExecutionDuration().AsDuration()
+			c.submitted[token] = proto.Clone(resp).(*remoteexecution.ExecuteResponse)
 			mreq.Resp = mresp
 			req.CurrentState = &remoteworker.CurrentState{WorkerState: &remoteworker.CurrentState_Executing_{Executing: &remoteworker.CurrentState_Executing{
 				ActionDigest:   &remoteexecution.Digest{Hash: s.Hash, SizeBytes: s.Size},
@@ -1244,7 +1344,7 @@ func (c *Case) doStep(s Step) {
 	case "kill":
 		_, err := c.Env.BQ.KillOperations(context.Background(), &buildqueuestate.KillOperationsRequest{
 			Filter: &buildqueuestate.KillOperationsRequest_Filter{Type: &buildqueuestate.KillOperationsRequest_Filter_OperationName{OperationName: s.Name}},
-			Status: statusFor(s.Code, "killed by operator "+s.Name),
+			Status: killStatus(s.Code, "killed by operator "+s.Name),
 		})
 		if !c.settle() {
 			return
@@ -1258,7 +1358,7 @@ func (c *Case) doStep(s Step) {
 		kp := &killPair{gate: gate, name: s.Name, code: s.Code}
 		kp.call = c.Env.KillOperationGated(&buildqueuestate.KillOperationsRequest{
 			Filter: &buildqueuestate.KillOperationsRequest_Filter{Type: &buildqueuestate.KillOperationsRequest_Filter_OperationName{OperationName: s.Name}},
-			Status: statusFor(s.Code, "killed by operator "+s.Name),
+			Status: killStatus(s.Code, "killed by operator "+s.Name),
 		}, gate)
 		c.gkills = append(c.gkills, kp)
 		if !c.settle() {
@@ -1278,7 +1378,7 @@ func (c *Case) doStep(s Step) {
 		q := c.knownSCQ[s.Q]
 		_, err := c.Env.BQ.KillOperations(context.Background(), &buildqueuestate.KillOperationsRequest{
 			Filter: &buildqueuestate.KillOperationsRequest_Filter{Type: &buildqueuestate.KillOperationsRequest_Filter_SizeClassQueueWithoutWorkers{SizeClassQueueWithoutWorkers: scqName(q)}},
-			Status: statusFor(s.Code, "queue killed by operator"),
+			Status: killStatus(s.Code, "queue killed by operator"),
 		})
 		if !c.settle() {
 			return
@@ -1429,6 +1529,10 @@ func (c *Case) genStep() (Step, bool) {
 			if rng.IntN(40) == 0 {
 				s.Code = "Unavailable"
 			}
+			// Optional parts of the request left out (derived from the
+			// step index, so that the PRNG stream is not disturbed).
+			s.NP = s.Prio == 0 && c.step%2 == 0
+			s.NM = s.Path == "" && c.step%3 == 0
 			return s, true
 		case "wait":
 			names := make([]string, 0, len(c.M.Ops))
@@ -1909,7 +2013,7 @@ func (c *Case) checkProtoLog(final bool) {
 			n = len(e)
 		}
 		for i := 0; i < n; i++ {
-			detailOK := g[i].Detail == e[i].Detail || g[i].Call == "Succeeded"
+			detailOK := g[i].Detail == e[i].Detail
 			if g[i].Object != e[i].Object || g[i].Call != e[i].Call || !detailOK {
 				c.diverge("selector-learner-call-differs", []string{"C07"}, "request %d, call %d on the size-class analyzer: got %s.%s(%s), expected %s.%s(%s)", id, i, g[i].Object, g[i].Call, g[i].Detail, e[i].Object, e[i].Call, e[i].Detail)
 				return
